@@ -33,6 +33,12 @@ pub struct SearchCase {
 }
 
 impl SearchCase {
+    /// does any (sub-)search of this case run with a non-zero A* weight factor?  Only then can
+    /// a vertex be re-labelled after it was expanded (with h = 0 and positive edge costs a
+    /// label is final when its vertex is expanded)
+    pub fn heuristic_in_use(&self) -> bool {
+        heuristic_in_use(&self.alg, self.query_wf)
+    }
     pub fn query(&self) -> serde_json::Value {
         let mut q = serde_json::Map::new();
         if let Some(w) = self.query_wf {
@@ -208,6 +214,14 @@ pub fn run_plain(case: &SearchCase, si: &SearchInstance) -> Result<PlainResult, 
     match run_raw(case, si) {
         Ok(r) => Ok(PlainResult::from_impl(&r)),
         Err(e) => Err(ErrKind::from_impl(&e)),
+    }
+}
+
+pub fn heuristic_in_use(alg: &AlgSpec, query_wf: Option<f64>) -> bool {
+    match alg {
+        AlgSpec::Dijkstra => query_wf.unwrap_or(0.0) != 0.0,
+        AlgSpec::AStar { wf } => query_wf.or(*wf).unwrap_or(1.0) != 0.0,
+        AlgSpec::SingleVia { underlying, .. } | AlgSpec::Yens { underlying, .. } => heuristic_in_use(underlying, query_wf),
     }
 }
 
